@@ -130,9 +130,9 @@ def render_func(prog, fname):
             lines.append(f"    {r} = dds.eval({nm})")
         elif t == "ext":
             # behaviour of non-accepted code is by design not tracked: its value never flows into the result
-            lines.append(f"    {r} = extlib.ext_fn() and None")
+            lines.append(f"    {r} = extlib{it.get('m', 0) or ''}.ext_fn() and None")
         elif t == "extvar":
-            lines.append(f"    {r} = extlib.EXTV and None")
+            lines.append(f"    {r} = extlib{it.get('m', 0) or ''}.EXTV and None")
         else:
             raise ValueError(t)
     if f.get("end"):
@@ -154,7 +154,9 @@ def render_func(prog, fname):
 
 def _imports_for(prog, m):
     """Import lines of module m derived from the references its functions make."""
-    lines = ["import dds", "from simutil import rec", "import extlib"]
+    lines = ["import dds", "from simutil import rec"]
+    for k, em in enumerate(prog.get("extmods", ["extlib"])):
+        lines.append(f"import {em} as extlib{k or ''}")
     froms, aliases, attrs, pkgattrs = set(), set(), set(), set()
     need_od = need_path = False
     for vn, v in prog["vars"].items():
@@ -240,9 +242,15 @@ def render(prog):
         lines.append("")
         files["/".join(pk + [m]) + ".py"] = "\n".join(lines)
     ext = prog.get("ext", {"EXTV": 1, "ext_ver": 1})
-    files["extlib.py"] = (
-        f"EXTV = {ext['EXTV']!r}\n\n\ndef ext_fn():\n    return ('ext', {ext['ext_ver']!r})\n"
-    )
+    for k, em in enumerate(prog.get("extmods", ["extlib"])):
+        parts = em.split(".")
+        for d in range(1, len(parts)):
+            files.setdefault("/".join(parts[:d]) + "/__init__.py", "")
+        files["/".join(parts) + ".py"] = (
+            "import dds\nfrom simutil import rec\n\n"
+            f"EXTV = {ext['EXTV']!r}\n\n\ndef ext_fn():\n    return ('ext', {ext['ext_ver']!r})\n\n\n"
+            f"@dds.data_function('/ext{k}/d')\ndef ext_data():\n    rec('ext_data')\n    return ('ext_data', {ext['ext_ver']!r})\n"
+        )
     files["simutil.py"] = SIMUTIL
     for i in range(prog.get("decoys", 0)):
         files[f"decoy{i}/__init__.py"] = ""
